@@ -7,15 +7,18 @@
   syntax in spine form whose inhabitants are the trees that can be written without parentheses.
   `unparse e c` / `s.toks c` / `progToks bs c` are the tokens for the choices `c : Choices N`:
   `c` decides every free alternative of the grammar (`plus`/`with`, optional `and` after a list
-  comma, argument separator `,`|`, and`|`&`|`'n'`|`and`, `is`/`'s`/`'re`, `""`/`empty`, `say` alias,
-  direction before/after `turn`, `back` after return, commas after `up`, number of blank lines …)
-  AND supplies an arbitrary template token for every token, of which only the kind and the
-  payload (identifier spelling, number, string) are overwritten: so the theorems quantify over all
-  positions, ranges, `after` snapshots and keyword spellings. `toAst` / `toStmt` / `progToAst`
-  give the tree the grammar assigns; `wf` are the side conditions that the absence of parentheses
-  imposes (DESIGN Appendix A); `Stop rest` says that the first token of `rest` cannot continue the
-  construct. Trees are compared after erasing source ranges and locations (`eraseRanges`,
-  `eraseS`, `eraseB`). Fuel: the number of tokens suffices.
+  comma, argument separator `,`|`, and`|`&`|`'n'`|`and`, `is`/`'s`/`'re`, `says`/`say`, `""`/`empty`,
+  `say` alias, direction before/after `turn`, `back` after return, commas after `up`, number of
+  blank lines …) AND supplies an arbitrary template token for every token, of which only the kind
+  and the payload (identifier spelling, number, string, the words of a poetic literal) are
+  overwritten: so the theorems quantify over all positions, ranges, `after` snapshots and keyword
+  spellings. `toAst` / `toStmt` / `progToAst` give the tree the grammar assigns; `wf` are the side
+  conditions that the absence of parentheses imposes (DESIGN Appendix A); `Stop rest` says that
+  the first token of `rest` cannot continue the construct; `Fits` says that the template tokens
+  are what a lexer produces at the four places where the parser reads a spelling or a position
+  that the grammar does not fix (after a bare `break`, after a poetic literal, the hyphen of
+  `X is -5`, the text of `X says …`). Trees are compared after erasing source ranges and
+  locations (`eraseRanges`, `eraseS`, `eraseB`). Fuel: the number of tokens suffices.
 -/
 import Rrss.Lemmas.RoundTripSentences
 namespace Rrss
@@ -194,23 +197,27 @@ example : Ex.runE 4 [Ex.k .not, Ex.w (str% "x"), Ex.k .is, Ex.w (str% "y"), Ex.k
 
 /-! ### statements, blocks, programs -/
 
-/-- **C02, statements** (all statement kinds except poetic assignments, which are C11, and
-    `rock … like`; compound statements with their nested blocks: `if`/`else`, `while`, `until`,
-    function definitions with the rule that an `if … else …` ends a function body). For every
-    well-formed statement syntax `s`, all choices `c` whose template tokens carry readable lexer
-    snapshots (`Sane`: `current_loc` must not underflow — true of every lexed token) and are not
-    spelled `it` (`NoIt`: a bare `break` looks at the spelling of the next token), every
-    continuation that cannot continue `s`: `parse_statement` consumes exactly the tokens of `s` and
-    returns `toStmt s` up to ranges and locations. One blank line closes exactly one block: the
-    tokens of a compound statement do not include the blank line that closes it (the enclosing
-    block's `expect_eol` takes it), `s.Stop` asks for it (or the end of the tokens). -/
+/-- **C02, statements** (all 18 statement kinds, with all their forms: the four forms of a
+    statement that starts with an identifier — call, function definition, poetic number
+    assignment with a poetic literal or with an expression, poetic string assignment —, `rock`
+    with `with` and with `like`; compound statements with their nested blocks: `if`/`else`, `while`,
+    `until`, function definitions with the rule that an `if … else …` ends a function body). For
+    every well-formed statement syntax `s`, all choices `c` whose template tokens carry readable
+    lexer snapshots (`Sane`: `current_loc` must not underflow — true of every lexed token) and agree
+    with the source at the places where the parser reads a spelling or a position that the grammar
+    leaves to the template (`Fits`: trivially true unless `s` contains a bare `break`, a poetic
+    literal, `X is -5` or `X says …`), every continuation that cannot continue `s`:
+    `parse_statement` consumes exactly the tokens of `s` and returns `toStmt s` up to ranges and
+    locations. One blank line closes exactly one block: the tokens of a compound statement do not
+    include the blank line that closes it (the enclosing block's `expect_eol` takes it), `s.Stop`
+    asks for it (or the end of the tokens). -/
 theorem C02_statement (s : Statement N) (c : Choices N) (rest : List (Tok N)) (st : PState N) (n : Nat)
     (hwf : s.wf = true) (hstop : s.Stop rest) (htoks : st.toks = s.toks c ++ rest)
-    (hflag : st.parsingList = false) (hsane : c.Sane st.src) (hit : c.NoIt)
+    (hflag : st.parsingList = false) (hsane : c.Sane st.src) (hfit : s.Fits st.src c rest)
     (hn : (s.toks c).length ≤ n) :
     ∃ s' st', parseStatement (parser n) st = .ok (some s', st') ∧ eraseS s' = s.toStmt ∧
       st'.toks = rest ∧ st'.parsingList = false :=
-  statement_roundtrip s c rest st n hwf hstop htoks hflag hsane hit hn
+  statement_roundtrip s c rest st n hwf hstop htoks hflag hsane hfit hn
 
 /-- non-vacuity: the function `f takes p, and q / if x / give back x back / else / say 4` (one blank
     line closes the `else` block, the `if` and the function) meets the hypotheses … -/
@@ -219,7 +226,8 @@ example : ∃ s' st', @parseStatement Int Lexer.asciiOps (@parser Int Lexer.asci
       = .ok (some s', st') ∧ eraseS s' = @Statement.toStmt Int Lexer.asciiOps Ex.funEx ∧
       st'.toks = [Ex.k .newline] ∧ st'.parsingList = false :=
   @C02_statement Int Lexer.asciiOps Ex.funEx Ex.c1 [Ex.k .newline] _ 21 (by decide +kernel) (Or.inr rfl) rfl rfl
-    Ex.c1_sane Ex.c1_noIt (by decide +kernel)
+    Ex.c1_sane (@plain_fits Int Lexer.asciiOps false [] Ex.funEx Ex.c1 _ (by decide +kernel) (fun h => by cases h))
+    (by decide +kernel)
 /-- … these are its tokens and its tree -/
 example : (@Statement.toks Int Lexer.asciiOps Ex.funEx Ex.c1).map (·.kind)
     = [.word, .takes, .word, .comma, .and, .word, .newline, .if_, .word, .newline, .return_, .back, .word,
@@ -234,12 +242,13 @@ theorem C02_statement_spelling_independent (s : Statement N) (c₁ c₂ : Choice
     (st₁ st₂ : PState N) (n₁ n₂ : Nat) (hwf : s.wf = true) (hstop₁ : s.Stop rest₁) (hstop₂ : s.Stop rest₂)
     (htoks₁ : st₁.toks = s.toks c₁ ++ rest₁) (htoks₂ : st₂.toks = s.toks c₂ ++ rest₂)
     (hflag₁ : st₁.parsingList = false) (hflag₂ : st₂.parsingList = false)
-    (hsane₁ : c₁.Sane st₁.src) (hsane₂ : c₂.Sane st₂.src) (hit₁ : c₁.NoIt) (hit₂ : c₂.NoIt)
+    (hsane₁ : c₁.Sane st₁.src) (hsane₂ : c₂.Sane st₂.src)
+    (hfit₁ : s.Fits st₁.src c₁ rest₁) (hfit₂ : s.Fits st₂.src c₂ rest₂)
     (hn₁ : (s.toks c₁).length ≤ n₁) (hn₂ : (s.toks c₂).length ≤ n₂) :
     ∃ s₁ s₂ st₁' st₂', parseStatement (parser n₁) st₁ = .ok (some s₁, st₁') ∧
       parseStatement (parser n₂) st₂ = .ok (some s₂, st₂') ∧ eraseS s₁ = eraseS s₂ := by
-  obtain ⟨s₁, st₁', h₁, e₁, _⟩ := C02_statement s c₁ rest₁ st₁ n₁ hwf hstop₁ htoks₁ hflag₁ hsane₁ hit₁ hn₁
-  obtain ⟨s₂, st₂', h₂, e₂, _⟩ := C02_statement s c₂ rest₂ st₂ n₂ hwf hstop₂ htoks₂ hflag₂ hsane₂ hit₂ hn₂
+  obtain ⟨s₁, st₁', h₁, e₁, _⟩ := C02_statement s c₁ rest₁ st₁ n₁ hwf hstop₁ htoks₁ hflag₁ hsane₁ hfit₁ hn₁
+  obtain ⟨s₂, st₂', h₂, e₂, _⟩ := C02_statement s c₂ rest₂ st₂ n₂ hwf hstop₂ htoks₂ hflag₂ hsane₂ hfit₂ hn₂
   exact ⟨s₁, s₂, st₁', st₂', h₁, h₂, e₁.trans e₂.symm⟩
 /-- non-vacuity: the two spellings of the function above (first / second alternative everywhere) -/
 example : ∃ s₁ s₂ st₁' st₂', @parseStatement Int Lexer.asciiOps (@parser Int Lexer.asciiOps 21)
@@ -248,64 +257,231 @@ example : ∃ s₁ s₂ st₁' st₂', @parseStatement Int Lexer.asciiOps (@pars
         (Ex.st0 (@Statement.toks Int Lexer.asciiOps Ex.funEx Ex.c1 ++ [])) = .ok (some s₂, st₂') ∧
       eraseS s₁ = eraseS s₂ :=
   @C02_statement_spelling_independent Int Lexer.asciiOps Ex.funEx Ex.c0 Ex.c1 [] [] _ _ 21 21 (by decide +kernel)
-    (Or.inl rfl) (Or.inl rfl) rfl rfl rfl rfl Ex.c0_sane Ex.c1_sane Ex.c0_noIt Ex.c1_noIt (by decide +kernel)
+    (Or.inl rfl) (Or.inl rfl) rfl rfl rfl rfl Ex.c0_sane Ex.c1_sane
+    (@plain_fits Int Lexer.asciiOps false [] Ex.funEx Ex.c0 _ (by decide +kernel) (fun h => by cases h))
+    (@plain_fits Int Lexer.asciiOps false [] Ex.funEx Ex.c1 _ (by decide +kernel) (fun h => by cases h))
+    (by decide +kernel) (by decide +kernel)
+
+/-! ### the statements with poetic literals -/
+
+/-- **C02, poetic number assignment with a literal.** `T is|'s|'re <words>`, where the words are ANY
+    tokens that the literal loop takes (word-like tokens of any kind: keywords count as words;
+    `,` `.` `'s` `'re`; a hyphen and the token after it) of which the first is neither a hyphen nor
+    a literal word, followed by a token that does not continue the literal (`PoeticEnd`: e.g. a
+    `Newline`, or the end of the tokens): the statement is the poetic assignment of the element
+    list `itemsElems lit` — word for word, suffixes and periods kept — to `T`. -/
+theorem C02_poetic_number_literal (t : Target N) (lit : List PoeticItem) (c : Choices N) (rest : List (Tok N))
+    (st : PState N) (n : Nat) (ht : t.wf = true) (hlit : litWf lit = true) (hasg : litAssignable lit = true)
+    (hstop : PoeticEnd rest)
+    (htoks : st.toks = (SimpleStmt.poeticLit t lit : SimpleStmt N).toks c ++ rest)
+    (hflag : st.parsingList = false) (hsane : c.Sane st.src)
+    (hn : ((SimpleStmt.poeticLit t lit : SimpleStmt N).toks c).length ≤ n) :
+    ∃ s' st', parseStatement (parser n) st = .ok (some s', st') ∧
+      eraseS s' = .poeticNum t.toLhs (.lit (itemsElems lit)) ∧ st'.toks = rest :=
+  have hwf : (Statement.simple (.poeticLit t lit) .none : Statement N).wf = true := by
+    simp [simple_wf, SimpleStmt.wf, ht, hlit, hasg]
+  let ⟨s', st', h, e, r, _⟩ := C02_statement (.simple (.poeticLit t lit) .none) c rest st n hwf hstop htoks hflag
+    hsane trivial hn
+  ⟨s', st', h, e, r⟩
+/-- non-vacuity: `Tommy was a lovestruck ladykiller` followed by a `Newline` … -/
+example : ∃ s' st', @parseStatement Int Lexer.asciiOps (@parser Int Lexer.asciiOps 5)
+      (Ex.st0 (@SimpleStmt.toks Int Lexer.asciiOps Ex.tommyS Ex.c0 ++ [Ex.k .newline])) = .ok (some s', st') ∧
+      eraseS s' = .poeticNum (.ident (.var (.simple (str% "Tommy"))) default)
+        (.lit [.word (str% "a"), .word (str% "lovestruck"), .word (str% "ladykiller")]) ∧
+      st'.toks = [Ex.k .newline] :=
+  @C02_poetic_number_literal Int Lexer.asciiOps Ex.tommyT Ex.tommyLit Ex.c0 [Ex.k .newline] _ 5
+    (by decide +kernel) (by decide +kernel) (by decide +kernel)
+    (fun t ht => by cases ht; decide +kernel) rfl rfl Ex.c0_sane (by decide +kernel)
+/-- … its tokens (`was` is an `Is` token, the article `a` a `CommonVariablePrefix`) -/
+example : (@SimpleStmt.toks Int Lexer.asciiOps Ex.tommyS Ex.c0).map (fun t => (t.kind, t.spelling))
+    = [(.word, str% "Tommy"), (.is, []), (.commonPrefix, str% "a"), (.word, str% "lovestruck"),
+       (.word, str% "ladykiller")] := by decide +kernel
+
+/-- **C02, poetic number assignment with an expression.** A right-hand side that starts with a
+    literal word, or with a hyphen (a `Minus` token SPELLED `-`) followed by a number, is an
+    ordinary expression: `T is E` is the poetic assignment of the tree of `E`. (If the `Minus` token
+    is spelled `minus`, the right-hand side is a poetic literal instead: see the report.) -/
+theorem C02_poetic_expression (t : Target N) (e : Expression N) (c : Choices N) (rest : List (Tok N))
+    (st : PState N) (n : Nat) (ht : t.wf = true) (he : e.wf = true)
+    (hstart : e.headUnary.poeticStart.isSome = true) (hstop : e.Stop rest)
+    (htoks : st.toks = (SimpleStmt.poeticExpr t e).toks c ++ rest)
+    (hflag : st.parsingList = false) (hsane : c.Sane st.src)
+    (hhyphen : e.headUnary.poeticStart = some true →
+      ∀ t, (unparse e (c.sub 2)).head? = some t → t.spelling = ['-'])
+    (hn : ((SimpleStmt.poeticExpr t e).toks c).length ≤ n) :
+    ∃ s' st', parseStatement (parser n) st = .ok (some s', st') ∧
+      eraseS s' = .poeticNum t.toLhs (.expr (toAst e)) ∧ st'.toks = rest :=
+  have hwf : (Statement.simple (.poeticExpr t e) .none : Statement N).wf = true := by
+    simp [simple_wf, SimpleStmt.wf, SimpleStmt.dotOK, ht, he, hstart]
+  let ⟨s', st', h, e', r, _⟩ := C02_statement (.simple (.poeticExpr t e) .none) c rest st n hwf hstop htoks hflag
+    hsane hhyphen hn
+  ⟨s', st', h, e', r⟩
+/-- non-vacuity: `x is -5` at the end of the tokens -/
+example : ∃ s' st', @parseStatement Int Lexer.asciiOps (@parser Int Lexer.asciiOps 4)
+      (Ex.st0 (@SimpleStmt.toks Int Lexer.asciiOps Ex.negS Ex.cHy ++ [])) = .ok (some s', st') ∧
+      eraseS s' = .poeticNum (.ident (.var (.simple (str% "x"))) default) (.expr (.un .minus (Ex.lit 5))) ∧
+      st'.toks = [] :=
+  @C02_poetic_expression Int Lexer.asciiOps Ex.xT Ex.minusFive Ex.cHy [] _ 4 (by decide +kernel) (by decide +kernel)
+    (by decide +kernel) (@stop_of_endsExpr Int Lexer.asciiOps false _ _ rfl) rfl rfl Ex.cHy_sane
+    (fun _ t ht => by
+      have : t.spelling = (Ex.cHy.tok []).spelling := by
+        revert ht
+        simp [unparse, logicalSyn, comparisonSyn, termSyn, factorSyn, unarySyn, spineSyn, Ex.minusFive,
+          Comparison.toLogical, Term.toComparison, Factor.toTerm, Unary.toFactor, Unary.toks, unopsToks,
+          unopKind, opsToks]
+        intro h; rw [← h]; rfl
+      rw [this]; rfl)
     (by decide +kernel)
+
+/-- **C02, poetic string assignment.** `T says|say …` takes the rest of the line, whatever tokens
+    it was lexed to (`junk`: their kinds; none is a `Newline`), up to a `Newline` token or the end of
+    the tokens, and assigns the SOURCE TEXT of that line after `says␣`. The text is not in the
+    tokens: the hypothesis `htext` says that `text` is what the source has between the `says` token
+    (its start offset and spelling are the template's) and the start of the `Newline` token (the end
+    of the source if there is none) — true of lexed tokens. -/
+theorem C02_poetic_string (t : Target N) (text : Str) (junk : List TK) (c : Choices N) (rest : List (Tok N))
+    (st : PState N) (n : Nat) (ht : t.wf = true) (hjunk : junk.all (· != .newline) = true)
+    (hstop : rest = [] ∨ nextIn [.newline] rest = true)
+    (htoks : st.toks = (SimpleStmt.poeticStr t text junk : SimpleStmt N).toks c ++ rest)
+    (hflag : st.parsingList = false) (hsane : c.Sane st.src)
+    (htext : lineText st.src (c.sub 1).here.start rest = some ((c.sub 1).here.spelling ++ ' ' :: text))
+    (hn : ((SimpleStmt.poeticStr t text junk : SimpleStmt N).toks c).length ≤ n) :
+    ∃ s' st', parseStatement (parser n) st = .ok (some s', st') ∧
+      eraseS s' = .poeticStr t.toLhs text ∧ st'.toks = rest :=
+  have hwf : (Statement.simple (.poeticStr t text junk) .none : Statement N).wf = true := by
+    simp only [simple_wf, SimpleStmt.wf, ht, Bool.true_and]
+    simpa using hjunk
+  let ⟨s', st', h, e, r, _⟩ := C02_statement (.simple (.poeticStr t text junk) .none) c rest st n hwf hstop htoks
+    hflag hsane htext hn
+  ⟨s', st', h, e, r⟩
+/-- non-vacuity: `x says hello world` as the whole source -/
+example : ∃ s' st', @parseStatement Int Lexer.asciiOps (@parser Int Lexer.asciiOps 4)
+      ⟨Ex.saysSrc, @SimpleStmt.toks Int Lexer.asciiOps Ex.saysS Ex.cSays ++ [], ⟨1, 0, 0⟩, ⟨1, 0, 0⟩, false⟩
+        = .ok (some s', st') ∧
+      eraseS s' = .poeticStr (.ident (.var (.simple (str% "x"))) default) (str% "hello world") ∧ st'.toks = [] :=
+  @C02_poetic_string Int Lexer.asciiOps Ex.xT (str% "hello world") [.word, .word] Ex.cSays [] _ 4
+    (by decide +kernel) (by decide +kernel) (Or.inl rfl) rfl rfl Ex.cSays_sane (by decide +kernel)
+    (by decide +kernel)
+
+/-- **C02, `rock … like`.** `rock P like <words>` pushes the poetic literal `itemsElems lit` (here a
+    literal may start with a literal word: `rock x like true` pushes the literal `true`, 4). -/
+theorem C02_rock_like (p : Grammar.Primary N) (lit : List PoeticItem) (c : Choices N) (rest : List (Tok N))
+    (st : PState N) (n : Nat) (hp : p.wf = true) (hlit : litWf lit = true) (hstop : PoeticEnd rest)
+    (htoks : st.toks = (SimpleStmt.rockLike p lit : SimpleStmt N).toks c ++ rest)
+    (hflag : st.parsingList = false) (hsane : c.Sane st.src)
+    (hn : ((SimpleStmt.rockLike p lit : SimpleStmt N).toks c).length ≤ n) :
+    ∃ s' st', parseStatement (parser n) st = .ok (some s', st') ∧
+      eraseS s' = .push p.toAst (some (.lit (itemsElems lit))) ∧ st'.toks = rest :=
+  have hwf : (Statement.simple (.rockLike p lit) .none : Statement N).wf = true := by
+    simp [simple_wf, SimpleStmt.wf, hp, hlit]
+  let ⟨s', st', h, e, r, _⟩ := C02_statement (.simple (.rockLike p lit) .none) c rest st n hwf hstop htoks hflag
+    hsane trivial hn
+  ⟨s', st', h, e, r⟩
+/-- non-vacuity: `rock x like a rolling stone` at the end of the tokens -/
+example : ∃ s' st', @parseStatement Int Lexer.asciiOps (@parser Int Lexer.asciiOps 6)
+      (Ex.st0 (@SimpleStmt.toks Int Lexer.asciiOps Ex.rockS Ex.c0 ++ [])) = .ok (some s', st') ∧
+      eraseS s' = .push (.ident (.var (.simple (str% "x"))) default)
+        (some (.lit [.word (str% "a"), .word (str% "rolling"), .word (str% "stone")])) ∧ st'.toks = [] :=
+  @C02_rock_like Int Lexer.asciiOps Ex.xP Ex.stoneLit Ex.c0 [] _ 6
+    (by decide +kernel) (by decide +kernel) (fun t ht => by cases ht) rfl rfl Ex.c0_sane (by decide +kernel)
+
+/-! ### blocks and programs -/
 
 /-- **C02, blocks.** A block (its lines, each statement with its line end `[.|,] newline`; one
     `newline` if the block is empty) followed by the end of the tokens, a blank line or `else` is
-    parsed by `parse_block` to the block of its statements, consuming exactly its tokens. -/
+    parsed by `parse_block` to the block of its statements, consuming exactly its tokens. `linesFit`
+    is `Fits` for every line: besides the conditions inside the statements, the first token of
+    the line end after a bare `break` is not spelled `it`, and the `Newline` after a poetic literal is
+    not spelled like a word (both true of lexed tokens: `.` `,` and line feeds are spelled as such). -/
 theorem C02_block (b : List (Statement N)) (c : Choices N) (rest : List (Tok N)) (st : PState N) (n : Nat)
     (hwf : stmtsWf b = true) (hstop : BlockEnd rest) (htoks : st.toks = blockToks b c ++ rest)
-    (hflag : st.parsingList = false) (hlast : SnapOK st.src st.last) (hsane : c.Sane st.src) (hit : c.NoIt)
-    (hn : (blockToks b c).length ≤ n) :
+    (hflag : st.parsingList = false) (hlast : SnapOK st.src st.last) (hsane : c.Sane st.src)
+    (hfit : linesFit st.src b c) (hn : (blockToks b c).length ≤ n) :
     ∃ B st', parseBlock (parser n) st = .ok (B, st') ∧ eraseB B = .mk default (stmtsToStmt b) ∧
       st'.toks = rest ∧ st'.parsingList = false :=
-  block_roundtrip b c rest st n hwf hstop htoks hflag hlast hsane hit hn
+  block_roundtrip b c rest st n hwf hstop htoks hflag hlast hsane hfit hn
 /-- non-vacuity: the block `say 1. / say 2` followed by `else` -/
 example : ∃ B st', @parseBlock Int Lexer.asciiOps (@parser Int Lexer.asciiOps 7)
       (Ex.st0 (@blockToks Int Lexer.asciiOps [Ex.sayS 1 .dot, Ex.sayS 2 .none] Ex.c0 ++ [Ex.k .else_]))
       = .ok (B, st') ∧ eraseB B = .mk default (@stmtsToStmt Int Lexer.asciiOps [Ex.sayS 1 .dot, Ex.sayS 2 .none]) ∧
       st'.toks = [Ex.k .else_] ∧ st'.parsingList = false :=
   @C02_block Int Lexer.asciiOps [Ex.sayS 1 .dot, Ex.sayS 2 .none] Ex.c0 [Ex.k .else_] _ 7 (by decide +kernel)
-    (Or.inr rfl) rfl rfl ⟨by decide, by decide⟩ Ex.c0_sane Ex.c0_noIt (by decide +kernel)
+    (Or.inr rfl) rfl rfl ⟨by decide, by decide⟩ Ex.c0_sane
+    (@plain_linesFit Int Lexer.asciiOps false [] _ Ex.c0 (by decide +kernel) (fun h => by cases h))
+    (by decide +kernel)
 
-/- FULL STATEMENT (not proved): `parseTokens (unparse p c) = .ok (toAst p)` for EVERY program `p` of
-   the grammar and every spelling. What `C02_program_partial` and `C02_program_eof_partial` below
-   (with `C02_statement`) lack:
-   (1) poetic assignments `X is/says …` (property C11) and `rock X like <poetic literal>` are not
-       statement kinds of `SimpleStmt`;
-   (2) end of input: covered are the programs in which every line ends with a `Newline` token and
-       every block is closed by its blank line (`C02_program_partial`) and those in which the
-       `Newline` of the last line and the blank lines closing the blocks open there are all
-       omitted (`C02_program_eof_partial`: `say 1<EOF>`, `if x⏎say 1.<EOF>`); not covered: the
-       end of the tokens right after a header line (`if x<EOF>`, `else<EOF>`, `f takes x<EOF>`)
-       and omitting only some of the closing blank lines;
-   (3) the hypotheses `Sane` (lexer snapshots of the tokens readable by `current_loc`; true of lexed
-       tokens by C12) and `NoIt` (no template token spelled `it`; only needed after a bare `break`)
-       are conditions on the token templates, not on the program.
-   Everything else of DESIGN §6 "Thm P" is covered: all expression forms, 17 of the 18 statement
-   kinds, blocks closed by exactly one blank line, `else` bound to the open `if`, the
-   if/else-ends-a-function rule, argument/parameter separators, optional words. -/
+/- FULL STATEMENT: `parseTokens (unparse p c) = .ok (toAst p)` for EVERY program `p` of the grammar
+   and every spelling. `C02_program` (every line end and closing blank line present) and
+   `C02_program_at_eof` (the last `d` of them omitted, for every `d`) below prove it at the token
+   level, for every statement kind, under three hypotheses, none of which can be dropped:
+   * `progWf`: the decidable side conditions that the absence of parentheses imposes (DESIGN
+     Appendix A) — without them the tokens ARE parsed, but to another tree;
+   * `Sane`: the lexer snapshots of the template tokens are readable by `current_loc` (else the
+     parser crashes);
+   * `progFits`: at the four places where the parser reads the spelling or the start offset of a
+     token that the grammar leaves to the template, the template is what a lexer would produce (after
+     a bare `break`: not `it`; after a poetic literal: not word-like; the hyphen of `X is -5`: `-`;
+     `X says …`: the text is the slice of the source). For programs without these constructs
+     (`progPlain`) it is `True`: `C02_program_plain`.
+   `Sane` and `progFits` hold for the tokens of a real lexer run (C12); proving THAT, i.e. composing
+   with the lexer to a statement about source strings, is not done here. -/
 
-/-- **C02, programs** (partial only in the sense of the comment above). A program — non-empty
-    top-level blocks, each closed by a blank line, with any number of further blank lines before
-    each block and at the end — is parsed by `Parser::parse` to the list of its blocks (up to
-    ranges and locations), consuming all tokens. -/
-theorem C02_program_partial (bs : List (List (Statement N))) (c : Choices N) (st : PState N) (n : Nat)
+/-- **C02, programs.** A program — non-empty top-level blocks, each closed by a blank line, with
+    any number of further blank lines before each block and at the end — is parsed by
+    `Parser::parse` to the list of its blocks (up to ranges and locations), consuming all tokens:
+    for every statement kind of the language, every spelling. -/
+theorem C02_program (bs : List (List (Statement N))) (c : Choices N) (st : PState N) (n : Nat)
     (hwf : progWf bs = true) (htoks : st.toks = progToks bs c) (hflag : st.parsingList = false)
-    (hlast : SnapOK st.src st.last) (hsane : c.Sane st.src) (hit : c.NoIt)
+    (hlast : SnapOK st.src st.last) (hsane : c.Sane st.src) (hfit : progFits st.src bs c)
     (hn : (progToks bs c).length ≤ n) :
     ∃ p st', parseProgramBody (parser n) st = .ok (p, st') ∧ p.code.map eraseB = progToAst bs ∧
       st'.toks = [] :=
-  program_roundtrip bs c st n hwf htoks hflag hlast hsane hit hn
+  program_roundtrip bs c st n hwf htoks hflag hlast hsane hfit hn
+
+/-- non-vacuity: the program `Tommy was a lovestruck ladykiller / x says hello world / rock x like a
+    rolling stone / x is -5 / break`, with its source text, meets the hypotheses … -/
+example : ∃ p st', @parseProgramBody Int Lexer.asciiOps (@parser Int Lexer.asciiOps 26)
+      ⟨Ex.poeticSrc, @progToks Int Lexer.asciiOps Ex.poeticProg Ex.cPoetic, ⟨1, 0, 0⟩, ⟨1, 0, 0⟩, false⟩
+        = .ok (p, st') ∧
+      p.code.map eraseB = @progToAst Int Lexer.asciiOps Ex.poeticProg ∧ st'.toks = [] :=
+  @C02_program Int Lexer.asciiOps Ex.poeticProg Ex.cPoetic _ 26 (by decide +kernel) rfl rfl
+    ⟨by decide, by decide⟩ Ex.cPoetic_sane Ex.poeticProg_fits (by decide +kernel)
+/-- … these are its tokens and its tree -/
+example : (@progToks Int Lexer.asciiOps Ex.poeticProg Ex.cPoetic).map (·.kind)
+    = [.word, .is, .commonPrefix, .word, .word, .newline, .word, .says, .word, .word, .newline,
+       .rock, .word, .like, .commonPrefix, .word, .word, .newline, .word, .is, .minus, .number, .newline,
+       .break_, .newline, .newline] := by decide +kernel
+example : @progToAst Int Lexer.asciiOps Ex.poeticProg
+    = [.mk default
+        [.poeticNum (.ident (.var (.simple (str% "Tommy"))) default)
+           (.lit [.word (str% "a"), .word (str% "lovestruck"), .word (str% "ladykiller")]),
+         .poeticStr (.ident (.var (.simple (str% "x"))) default) (str% "hello world"),
+         .push (.ident (.var (.simple (str% "x"))) default)
+           (some (.lit [.word (str% "a"), .word (str% "rolling"), .word (str% "stone")])),
+         .poeticNum (.ident (.var (.simple (str% "x"))) default) (.expr (.un .minus (Ex.lit 5))),
+         .break_ default]] := by rfl
+
+/-- **C02, programs without template-dependent constructs.** If the program has no poetic literal,
+    no poetic string, no `rock … like`, no `X is -<number>` (`progPlain`), then `progFits` holds: for a
+    program that has no bare `break` either (`ab = false`) without any further hypothesis, and
+    otherwise if no template token is spelled `it` (`NoIt`, the hypothesis of the earlier version of
+    this theorem). -/
+theorem C02_program_plain (ab : Bool) (bs : List (List (Statement N))) (c : Choices N) (st : PState N) (n : Nat)
+    (hwf : progWf bs = true) (hplain : progPlain ab bs = true) (hit : ab = true → c.NoIt)
+    (htoks : st.toks = progToks bs c) (hflag : st.parsingList = false)
+    (hlast : SnapOK st.src st.last) (hsane : c.Sane st.src)
+    (hn : (progToks bs c).length ≤ n) :
+    ∃ p st', parseProgramBody (parser n) st = .ok (p, st') ∧ p.code.map eraseB = progToAst bs ∧
+      st'.toks = [] :=
+  C02_program bs c st n hwf htoks hflag hlast hsane (plain_progFits st.src bs c hplain hit) hn
 
 /-- non-vacuity: a program of two blocks (an `if`/`else` followed by a `say`; the function above),
     spelled with extra blank lines, meets the hypotheses … -/
 example : ∃ p st', @parseProgramBody Int Lexer.asciiOps (@parser Int Lexer.asciiOps 43)
       (Ex.st0 (@progToks Int Lexer.asciiOps Ex.progEx Ex.c1)) = .ok (p, st') ∧
       p.code.map eraseB = @progToAst Int Lexer.asciiOps Ex.progEx ∧ st'.toks = [] :=
-  @C02_program_partial Int Lexer.asciiOps Ex.progEx Ex.c1 _ 43 (by decide +kernel) rfl rfl ⟨by decide, by decide⟩
-    Ex.c1_sane Ex.c1_noIt (by decide +kernel)
+  @C02_program_plain Int Lexer.asciiOps false Ex.progEx Ex.c1 _ 43 (by decide +kernel) (by decide +kernel)
+    (fun h => by cases h) rfl rfl ⟨by decide, by decide⟩ Ex.c1_sane (by decide +kernel)
 /-- … these are its tokens and its tree -/
 example : (@progToks Int Lexer.asciiOps Ex.progEx Ex.c1).map (·.kind)
     = [.newline, .if_, .word, .newline, .sayAlias, .number, .dot, .newline, .else_, .newline, .sayAlias,
@@ -320,42 +496,133 @@ example : @progToAst Int Lexer.asciiOps Ex.progEx
           (.mk default [.ifS (Ex.v (str% "x")) (.mk default [.ret (Ex.v (str% "x"))])
             (some (.mk default [.output (Ex.lit 4)]))])]] := by rfl
 
-/-- **C02, the last statement of the input.** A statement that ends with the tokens — for a
-    compound statement: the `Newline` of its last line and the blank lines that close its blocks
-    omitted — parses to the same tree. -/
+/-- **C02, programs** (the earlier name of `C02_program`; kept as a corollary). -/
+theorem C02_program_partial (bs : List (List (Statement N))) (c : Choices N) (st : PState N) (n : Nat)
+    (hwf : progWf bs = true) (htoks : st.toks = progToks bs c) (hflag : st.parsingList = false)
+    (hlast : SnapOK st.src st.last) (hsane : c.Sane st.src) (hfit : progFits st.src bs c)
+    (hn : (progToks bs c).length ≤ n) :
+    ∃ p st', parseProgramBody (parser n) st = .ok (p, st') ∧ p.code.map eraseB = progToAst bs ∧
+      st'.toks = [] :=
+  C02_program bs c st n hwf htoks hflag hlast hsane hfit hn
+/-- non-vacuity: as for `C02_program` -/
+example : ∃ p st', @parseProgramBody Int Lexer.asciiOps (@parser Int Lexer.asciiOps 26)
+      ⟨Ex.poeticSrc, @progToks Int Lexer.asciiOps Ex.poeticProg Ex.cPoetic, ⟨1, 0, 0⟩, ⟨1, 0, 0⟩, false⟩
+        = .ok (p, st') ∧
+      p.code.map eraseB = @progToAst Int Lexer.asciiOps Ex.poeticProg ∧ st'.toks = [] :=
+  @C02_program_partial Int Lexer.asciiOps Ex.poeticProg Ex.cPoetic _ 26 (by decide +kernel) rfl rfl
+    ⟨by decide, by decide⟩ Ex.cPoetic_sane Ex.poeticProg_fits (by decide +kernel)
+
+/-! ### the end of the tokens instead of the last line ends -/
+
+/-- **C02, the last statement of the input, in general.** `Parser::parse` accepts the end of the
+    tokens wherever it accepts a `Newline`. `s.toksD d c` is the spelling of `s` in which the last `d`
+    `Newline` tokens that `s` would have inside a block are omitted (all, if there are fewer): the
+    blank lines closing the blocks still open at the end, outermost first, then the `Newline` of
+    the last line — or, where the last block is empty, the blank line that stands for it and then
+    the `Newline` of its header line (`if x⏎⏎`, `if x⏎`, `if x`; `… else⏎⏎`, `… else⏎`, `… else`;
+    `f takes x`). Every one of these spellings parses to the same tree. -/
+theorem C02_statement_at_eof (d : Nat) (s : Statement N) (c : Choices N) (st : PState N) (n : Nat)
+    (hwf : s.wf = true) (htoks : st.toks = s.toksD d c) (hflag : st.parsingList = false)
+    (hsane : c.Sane st.src) (hfit : s.FitsD st.src d c []) (hn : (s.toksD d c).length ≤ n) :
+    ∃ s' st', parseStatement (parser n) st = .ok (some s', st') ∧ eraseS s' = s.toStmt ∧ st'.toks = [] :=
+  statement_roundtripD d s c st n hwf htoks hflag hsane hfit hn
+/-- non-vacuity: `if x⏎⏎`, `if x⏎`, `if x` (empty block: depths 0, 1, 2) and `while x⏎if x⏎say 1⏎`
+    (depth 0: nothing omitted inside the `while`, whose own closing blank line is not part of it) -/
+example : ∃ s' st', @parseStatement Int Lexer.asciiOps (@parser Int Lexer.asciiOps 4)
+      (Ex.st0 (@Statement.toksD Int Lexer.asciiOps 2 (.ifS Ex.xE .none [] none) Ex.c0)) = .ok (some s', st') ∧
+      eraseS s' = .ifS (Ex.v (str% "x")) (.mk default []) none ∧ st'.toks = [] :=
+  @C02_statement_at_eof Int Lexer.asciiOps 2 (.ifS Ex.xE .none [] none) Ex.c0 _ 4 (by decide +kernel) rfl rfl
+    Ex.c0_sane (@plain_fitsD Int Lexer.asciiOps false [] _ 2 Ex.c0 [] (by decide +kernel) (fun h => by cases h))
+    (by decide +kernel)
+example : [0, 1, 2, 3].map (fun d => (@Statement.toksD Int Lexer.asciiOps d (.ifS Ex.xE .none [] none) Ex.c0).map
+      (·.kind))
+    = [[.if_, .word, .newline, .newline], [.if_, .word, .newline], [.if_, .word], [.if_, .word]] := by
+  decide +kernel
+example : [0, 1, 2, 3, 4].map (fun d => (@Statement.toksD Int Lexer.asciiOps d
+      (.whileS Ex.xE .none [.ifS Ex.xE .none [Ex.sayS 1 .none] none]) Ex.c0).map (·.kind))
+    = [[.while_, .word, .newline, .if_, .word, .newline, .say, .number, .newline, .newline],
+       [.while_, .word, .newline, .if_, .word, .newline, .say, .number, .newline],
+       [.while_, .word, .newline, .if_, .word, .newline, .say, .number],
+       [.while_, .word, .newline, .if_, .word, .newline, .say, .number],
+       [.while_, .word, .newline, .if_, .word, .newline, .say, .number]] := by
+  decide +kernel
+
+/-- **C02, the last statement of the input** with ALL those newlines omitted except the one of a
+    header line (`toksE`): the instance of `C02_statement_at_eof` at the depth `s.eofDepth`. -/
 theorem C02_statement_eof (s : Statement N) (c : Choices N) (st : PState N) (n : Nat)
     (hwf : s.wf = true) (htoks : st.toks = s.toksE c) (hflag : st.parsingList = false)
-    (hsane : c.Sane st.src) (hit : c.NoIt) (hn : (s.toksE c).length ≤ n) :
+    (hsane : c.Sane st.src) (hfit : s.FitsE st.src c) (hn : (s.toksE c).length ≤ n) :
     ∃ s' st', parseStatement (parser n) st = .ok (some s', st') ∧ eraseS s' = s.toStmt ∧ st'.toks = [] :=
-  statement_roundtripE s c st n hwf htoks hflag hsane hit hn
+  statement_roundtripE s c st n hwf htoks hflag hsane hfit hn
 
 /-- non-vacuity: the function above without its last `Newline` and closing blank line -/
 example : ∃ s' st', @parseStatement Int Lexer.asciiOps (@parser Int Lexer.asciiOps 19)
       (Ex.st0 (@Statement.toksE Int Lexer.asciiOps Ex.funEx Ex.c1)) = .ok (some s', st') ∧
       eraseS s' = @Statement.toStmt Int Lexer.asciiOps Ex.funEx ∧ st'.toks = [] :=
-  @C02_statement_eof Int Lexer.asciiOps Ex.funEx Ex.c1 _ 19 (by decide +kernel) rfl rfl Ex.c1_sane Ex.c1_noIt
+  @C02_statement_eof Int Lexer.asciiOps Ex.funEx Ex.c1 _ 19 (by decide +kernel) rfl rfl Ex.c1_sane
+    (@plain_fitsE Int Lexer.asciiOps false [] Ex.funEx Ex.c1 (by decide +kernel) (fun h => by cases h))
     (by decide +kernel)
 example : (@Statement.toksE Int Lexer.asciiOps Ex.funEx Ex.c1).map (·.kind)
     = [.word, .takes, .word, .comma, .and, .word, .newline, .if_, .word, .newline, .return_, .back, .word,
        .back, .newline, .else_, .newline, .sayAlias, .number] := by decide +kernel
 
-/-- **C02, programs that end with the tokens** (see the comment above). The same program as in
-    `C02_program_partial`, spelled without the `Newline` of its last line and without the blank
-    lines that close the blocks open there, parses to the same blocks. -/
+/-- **C02, programs that end with the tokens, in general.** The program of `C02_program`, spelled
+    without the blank line that closes its last top-level block and without the last `d` further
+    `Newline` tokens (see `C02_statement_at_eof`), for EVERY `d`, parses to the same blocks. Together
+    with `C02_program` (all newlines present, and any number of blank lines after them): every way
+    of ending the input. -/
+theorem C02_program_at_eof (d : Nat) (bs : List (List (Statement N))) (c : Choices N) (st : PState N) (n : Nat)
+    (hwf : progWf bs = true) (htoks : st.toks = progToksD d bs c) (hflag : st.parsingList = false)
+    (hlast : SnapOK st.src st.last) (hsane : c.Sane st.src) (hfit : progFitsD st.src d bs c)
+    (hn : (progToksD d bs c).length ≤ n) :
+    ∃ p st', parseProgramBody (parser n) st = .ok (p, st') ∧ p.code.map eraseB = progToAst bs ∧
+      st'.toks = [] :=
+  program_roundtripD d bs c st n hwf htoks hflag hlast hsane hfit hn
+/-- non-vacuity: the two-block program above with the last 0, 1, 2, … newlines omitted -/
+example : ∃ p st', @parseProgramBody Int Lexer.asciiOps (@parser Int Lexer.asciiOps 40)
+      (Ex.st0 (@progToksD Int Lexer.asciiOps 1 Ex.progEx Ex.c1)) = .ok (p, st') ∧
+      p.code.map eraseB = @progToAst Int Lexer.asciiOps Ex.progEx ∧ st'.toks = [] :=
+  @C02_program_at_eof Int Lexer.asciiOps 1 Ex.progEx Ex.c1 _ 40 (by decide +kernel) rfl rfl
+    ⟨by decide, by decide⟩ Ex.c1_sane
+    (@plain_progFitsD Int Lexer.asciiOps false [] 1 Ex.progEx Ex.c1 (by decide +kernel) (fun h => by cases h))
+    (by decide +kernel)
+example : [0, 1, 2, 3, 4].map (fun d => ((@progToksD Int Lexer.asciiOps d Ex.progEx Ex.c1).drop 34).map (·.kind))
+    = [[.newline, .else_, .newline, .sayAlias, .number, .newline, .newline],
+       [.newline, .else_, .newline, .sayAlias, .number, .newline],
+       [.newline, .else_, .newline, .sayAlias, .number],
+       [.newline, .else_, .newline, .sayAlias, .number],
+       [.newline, .else_, .newline, .sayAlias, .number]] := by
+  decide +kernel
+/-- … `x says hello world` as the last line of the source, without `Newline` (depth 1): the text
+    runs to the end of the source -/
+example : ∃ p st', @parseProgramBody Int Lexer.asciiOps (@parser Int Lexer.asciiOps 5)
+      ⟨Ex.saysSrc, @progToksD Int Lexer.asciiOps 1 [[.simple Ex.saysS .none]]
+        ⟨fun _ => 0, fun p => Ex.cSays.tok (p.drop 2)⟩, ⟨1, 0, 0⟩, ⟨1, 0, 0⟩, false⟩ = .ok (p, st') ∧
+      p.code.map eraseB = [.mk default [.poeticStr (.ident (.var (.simple (str% "x"))) default) (str% "hello world")]] ∧
+      st'.toks = [] :=
+  @C02_program_at_eof Int Lexer.asciiOps 1 [[.simple Ex.saysS .none]] ⟨fun _ => 0, fun p => Ex.cSays.tok (p.drop 2)⟩
+    _ 5 (by decide +kernel) rfl rfl ⟨by decide, by decide⟩ (fun p => Ex.cSays_sane (p.drop 2))
+    ⟨by show lineText Ex.saysSrc 2 [] = some _; decide +kernel, trivial⟩ (by decide +kernel)
+
+/-- **C02, programs that end with the tokens** (`progToksE`: the `Newline` of the last line and the
+    blank lines that close the blocks open there all omitted): the instance of `C02_program_at_eof`
+    at the depth `progEofDepth bs`; kept under its earlier name. -/
 theorem C02_program_eof_partial (bs : List (List (Statement N))) (c : Choices N) (st : PState N) (n : Nat)
     (hwf : progWf bs = true) (htoks : st.toks = progToksE bs c) (hflag : st.parsingList = false)
-    (hlast : SnapOK st.src st.last) (hsane : c.Sane st.src) (hit : c.NoIt)
+    (hlast : SnapOK st.src st.last) (hsane : c.Sane st.src) (hfit : progFitsE st.src bs c)
     (hn : (progToksE bs c).length ≤ n) :
     ∃ p st', parseProgramBody (parser n) st = .ok (p, st') ∧ p.code.map eraseB = progToAst bs ∧
       st'.toks = [] :=
-  program_roundtripE bs c st n hwf htoks hflag hlast hsane hit hn
+  program_roundtripE bs c st n hwf htoks hflag hlast hsane hfit hn
 
 /-- non-vacuity: the program above, ending with `… else⏎say 4<EOF>` -/
 example : ∃ p st', @parseProgramBody Int Lexer.asciiOps (@parser Int Lexer.asciiOps 39)
       (Ex.st0 (@progToksE Int Lexer.asciiOps Ex.progEx Ex.c1)) = .ok (p, st') ∧
       p.code.map eraseB = @progToAst Int Lexer.asciiOps Ex.progEx ∧ st'.toks = [] :=
   @C02_program_eof_partial Int Lexer.asciiOps Ex.progEx Ex.c1 _ 39 (by decide +kernel) rfl rfl
-    ⟨by decide, by decide⟩ Ex.c1_sane Ex.c1_noIt (by decide +kernel)
+    ⟨by decide, by decide⟩ Ex.c1_sane
+    (@plain_progFitsE Int Lexer.asciiOps false [] Ex.progEx Ex.c1 (by decide +kernel) (fun h => by cases h))
+    (by decide +kernel)
 example : (@progToksE Int Lexer.asciiOps Ex.progEx Ex.c1).map (·.kind)
     = [.newline, .if_, .word, .newline, .sayAlias, .number, .dot, .newline, .else_, .newline, .sayAlias,
        .number, .newline, .newline, .sayAlias, .number, .comma, .newline, .newline,
